@@ -17,6 +17,9 @@ import (
 	"github.com/nsqio/nsq/internal/version"
 )
 
+// maxIdentifyBodySize bounds the IDENTIFY body a peer may announce
+const maxIdentifyBodySize = 1024 * 1024
+
 type LookupProtocolV1 struct {
 	nsqlookupd *NSQLookupd
 }
@@ -208,6 +211,13 @@ func (p *LookupProtocolV1) IDENTIFY(client *ClientV1, reader *bufio.Reader, para
 	err = binary.Read(reader, binary.BigEndian, &bodyLen)
 	if err != nil {
 		return nil, protocol.NewFatalClientErr(err, "E_BAD_BODY", "IDENTIFY failed to read body size")
+	}
+
+	// the body is a small JSON document; a negative size would panic in make()
+	// and a huge one would allocate whatever the peer asks for
+	if bodyLen <= 0 || bodyLen > maxIdentifyBodySize {
+		return nil, protocol.NewFatalClientErr(nil, "E_BAD_BODY",
+			fmt.Sprintf("IDENTIFY invalid body size %d", bodyLen))
 	}
 
 	body := make([]byte, bodyLen)
